@@ -67,6 +67,7 @@ package leader
 //@ field disconnectHandler.mu              sync
 //@ field disconnectHandler.timer           guarded_by(mu)
 //@ field disconnectHandler.disconnectedAt  guarded_by(mu)
+//@ field disconnectHandler.generation      guarded_by(mu)
 
 //@ field natsConnectionMonitor.conn              immutable
 //@ field natsConnectionMonitor.status            atomic type ConnectionStatus
@@ -911,10 +912,13 @@ package leader
 //@   on call time.AfterFunc assert C11.only_if_leader: sawLeader
 //@   on call time.AfterFunc assert C11.rearm: timerAtLock != nil ==> calls(Timer.Stop) == 1
 //@   on call handleGracePeriodExpired assert C11.expiry_runs_in_timer: inspawn()
+//@   ghost genStored Int = -1
+//@   on store disconnectHandler.generation as s set genStored = s.value
+//@   on call handleGracePeriodExpired as c assert C11.expiry_carries_latest_generation: c.generation == genStored
 //@   ensures C11.arms_timer: sawLeader ==> calls(time.AfterFunc) == 1
 //@   ensures C11.not_leader_no_timer: !sawLeader ==> calls(time.AfterFunc) == 0
 
-//@ func (d *disconnectHandler) handleGracePeriodExpired()
+//@ func (d *disconnectHandler) handleGracePeriodExpired(generation)
 //@   tags C11 C08 C07 C20
 //@   ghost demote_cause Bool = false
 //@   ghost statusSeen Int = -1
@@ -924,17 +928,21 @@ package leader
 //@   ghost isCurrent Bool = false
 //@   on ret ConnectionMonitor.Status as s set statusSeen = s.result
 //@   on load kvElection.isLeader as l set sawLeader = l.value
+//@   on load disconnectHandler.generation as l set isCurrent = l.value == generation
 //@   on call becomeFollower set demote_cause = (d.election.connectionMonitor == nil || statusSeen == 1) && sawLeader
 //@   on call becomeFollower assert C11.expiry_is_current: isCurrent
 //@   on ret becomeFollower as r set cleared = r.result
 //@   on load kvElection.onDemote as l set demoteSet = l.value != nil
-//@   ensures C11.expiry_demotes: (d.election.connectionMonitor == nil || statusSeen == 1) && sawLeader ==> calls(becomeFollower) == 1 && (demoteSet ==> calls(onDemote) == 1)
+//@   ensures C11.expiry_demotes: isCurrent && (d.election.connectionMonitor == nil || statusSeen == 1) && sawLeader ==> calls(becomeFollower) == 1 && (demoteSet ==> calls(onDemote) == 1)
 //@   ensures C11.no_demotion_if_reconnected: d.election.connectionMonitor != nil && statusSeen != 1 ==> calls(becomeFollower) == 0 && calls(onDemote) == 0
 //@   ensures C11+C08.no_demotion_if_not_leader: !sawLeader ==> calls(becomeFollower) == 0 && calls(onDemote) == 0
 //@   ensures C08.demote_iff_claim_cleared: calls(onDemote) == ((cleared && demoteSet) ? 1 : 0)
 
 //@ func (d *disconnectHandler) stop()
 //@   tags C11 C20
+//@   ghost g0 Int = 0
+//@   on lock disconnectHandler.mu set g0 = d.generation
+//@   on unlock disconnectHandler.mu assert C11.stop_invalidates_pending_expiry: d.generation != g0
 
 //@ func (e *kvElection) handleReconnect()
 //@   tags C11 C20 C09
